@@ -129,6 +129,46 @@ func init() {
 						return "expired"
 					}
 					return "nocert"
+				case "burst": // kind(dns|ip) k seq : k DIFFERENT new hosts, one tunnel each, all at the same moment
+					k, _ := strconv.Atoi(f[3])
+					targets := make([]string, k)
+					for i := range targets {
+						if f[2] == "ip" {
+							targets[i] = fmt.Sprintf("10.%s.%d.%d:443", f[4], i/200, 1+i%200)
+						} else {
+							targets[i] = fmt.Sprintf("burst-%s-%d.example:443", f[4], i)
+						}
+					}
+					res := make([]*tls.Certificate, k)
+					errs := make([]error, k)
+					var wg sync.WaitGroup
+					start := make(chan struct{})
+					for i := 0; i < k; i++ {
+						wg.Add(1)
+						go func(i int) {
+							defer wg.Done()
+							<-start
+							res[i], errs[i] = s.ca.GetCertForHost(targets[i])
+						}(i)
+					}
+					close(start)
+					wg.Wait()
+					bad := []string{}
+					for i := 0; i < k; i++ {
+						host, _, _ := net.SplitHostPort(targets[i])
+						if errs[i] != nil || res[i] == nil {
+							bad = append(bad, host+":error")
+							continue
+						}
+						d := s.describe(res[i], host)
+						if !(contains(d, "verify=ok") && contains(d, "key=ok") && contains(d, "validnow=1")) {
+							bad = append(bad, host+":"+d)
+						}
+					}
+					if len(bad) > 0 {
+						return fmt.Sprintf("allvalid=0 n=%d first=%s", k, bad[0])
+					}
+					return fmt.Sprintf("allvalid=1 n=%d", k)
 				case "concurrent": // target(hex) k
 					k, _ := strconv.Atoi(f[3])
 					target := unhx(f[2])
@@ -234,6 +274,10 @@ func init() {
 			rec(nil, 0)
 			for t := 0; t < n; t++ {
 				emit("ce", "reset")
+				if r.Chance(50) {
+					// a burst of first-time tunnels to different hosts of the same kind
+					emit("ce", "burst", []string{"dns", "ip"}[r.Intn(2)], strconv.Itoa(4+r.Intn(12)), strconv.Itoa(t%250))
+				}
 				used := []string{}
 				for i := 0; i < 4+r.Intn(8); i++ {
 					switch x := r.Intn(100); {
